@@ -26,7 +26,7 @@ props=$(python3 -c "import json,sys; m=json.load(open('$dir/meta.json')); p=m.ge
 rc=0
 for p in $props; do
   out="$scratch/out.$p.txt"
-  VERIF_REPO="$scratch/repo" VERIF_DIR="$scratch/verif" ./check "$p" "$tier" >"$out" 2>&1
+  VERIF_ISOLATE=1 VERIF_REPO="$scratch/repo" VERIF_DIR="$scratch/verif" ./check "$p" "$tier" >"$out" 2>&1
   code=$?
   if [ $code -eq 1 ] && grep -q "^VIOLATION property=$p" "$out"; then
     echo "SELFTEST $id: DETECTED by $p ($tier): $(grep -c '^VIOLATION' "$out") violation key(s); first: $(grep -m1 'finding key=' "$out" | cut -c1-240)"
